@@ -330,6 +330,11 @@ async def process_resource_causes(
         loop = asyncio.get_running_loop()
         unslept = await aiotime.sleep(consistency_time - loop.time(), wakeup=stream_pressure)
         consistency_is_achieved = unslept is None  # "woke up" vs. "timed out"
+        # While the operator is paused (or exiting), the watch-streams are closed, and the expected
+        # version cannot arrive: the elapsed time implies nothing. Leave the object to the re-listing
+        # on resuming rather than handle its stale state (e.g. re-run the just-finished handlers).
+        if consistency_is_achieved and operator_paused is not None and operator_paused.is_on():
+            consistency_is_achieved = False
     consistency_is_achieved = consistency_is_achieved and patch_initially_empty
     if consistency_is_required and not consistency_is_achieved:
         return list(spawning_delays), False  # exit to PATCHing and/or re-iterating over new events.
